@@ -415,20 +415,20 @@ func c16ChildMuReentry(r *Run, m *ServerModel, eff map[*types.Func]*Effects) {
 
 // guarded-by table: field key -> lock class ("atomic" for atomic-only fields).
 var c16Guards = map[string]string{
-	"p9.connState.fids":          "p9.connState.fidMu",
-	"p9.connState.tags":          "p9.connState.tagMu",
-	"p9.connState.recvShutdown":  "p9.connState.recvMu",
-	"p9.pathNode.childNodes":     "p9.pathNode.childMu",
-	"p9.pathNode.childRefs":      "p9.pathNode.childMu",
-	"p9.pathNode.childRefNames":  "p9.pathNode.childMu",
-	"p9.pool.cache":              "p9.pool.mu",
-	"p9.pool.start":              "p9.pool.mu",
-	"p9.Client.pending":          "p9.Client.pendingMu",
-	"p9.pathNode.deleted":        "atomic",
-	"p9.fidRef.refs":             "atomic",
-	"p9.connState.messageSize":   "atomic",
-	"p9.connState.version":       "atomic",
-	"p9.connState.recvIdle":      "atomic",
+	"p9.connState.fids":         "p9.connState.fidMu",
+	"p9.connState.tags":         "p9.connState.tagMu",
+	"p9.connState.recvShutdown": "p9.connState.recvMu",
+	"p9.pathNode.childNodes":    "p9.pathNode.childMu",
+	"p9.pathNode.childRefs":     "p9.pathNode.childMu",
+	"p9.pathNode.childRefNames": "p9.pathNode.childMu",
+	"p9.pool.cache":             "p9.pool.mu",
+	"p9.pool.start":             "p9.pool.mu",
+	"p9.Client.pending":         "p9.Client.pendingMu",
+	"p9.pathNode.deleted":       "atomic",
+	"p9.fidRef.refs":            "atomic",
+	"p9.connState.messageSize":  "atomic",
+	"p9.connState.version":      "atomic",
+	"p9.connState.recvIdle":     "atomic",
 }
 
 func c16GuardedBy(r *Run, m *ServerModel) {
